@@ -22,6 +22,21 @@ META = {
 }
 
 
+def extra_shapes():
+    """Shapes used by C01 only: coefficients computed from the time and from a named data set."""
+    import pandas as _pd
+
+    from vf import ratefns as R
+
+    return [
+        dict(name="time_coef", params=[("k1", None)], vars=[("x", None), ("y", None)],
+             reactions=[("v1", R.mass_action_1s, ["x", "k1"], {"x": -1, "y": ("d", R.ramp, ["k1", "time"])})]),
+        dict(name="data_coef", params=[("k1", None)], vars=[("x", None), ("y", None)],
+             reactions=[("v1", R.mass_action_1s, ["x", "k1"], {"x": -1, "y": ("d", R.first_of, ["light"])})],
+             data=[("light", _pd.Series({"a": 1.5, "b": 2.0}))]),
+    ]
+
+
 class C01(Scenario):
     modules = ["mxlpy.model"]
     float_shim = ["mxlpy.model"]
@@ -98,6 +113,30 @@ class C01(Scenario):
         for v in names:
             ctx.eq(f"get_right_hand_side()[{v}]", r0[v], dx0[v])
 
+        # the dictionaries handed out belong to the caller: editing them (the usual way to build a start state or a
+        # parameter set) must not change what the model answers by default
+        with ctx.impl("defaults after the caller edited the returned dictionaries"):
+            handed_ic = m.get_initial_conditions()
+            handed_pv = m.get_parameter_values()
+            for v in list(handed_ic):
+                handed_ic[v] = ctx.real(f"tamper_{v}")
+            for n_ in list(handed_pv):
+                handed_pv[n_] = ctx.real(f"tamper_{n_}")
+            r0b = m.get_right_hand_side()
+        for v in names:
+            ctx.eq(f"get_right_hand_side() after editing the returned dictionaries [{v}]", r0b[v], dx0[v])
+
+        # time-course forms: a table may carry the same time label twice (concatenated runs): one answer per row
+        frame_dup = pd.DataFrame({v: [state[v], ctx.real(f"s2_{v}")] for v in names}, index=[T, T], dtype=object if ctx.symbolic else float)
+        envd = E.state_env(decl, {v: ctx.real(f"s2_{v}") for v in names}, T)
+        with ctx.impl("get_fluxes_time_course (repeated time label)"):
+            fdup = m.get_fluxes_time_course(frame_dup)
+        ctx.true("get_fluxes_time_course: one row per input row, also for a repeated time label", len(fdup) == 2, info=str(len(fdup)))
+        if len(fdup) == 2:
+            for f in fluxn:
+                ctx.eq(f"get_fluxes_time_course[repeated label, row 0, {f}]", fdup[f].iloc[0], env[f])
+                ctx.eq(f"get_fluxes_time_course[repeated label, row 1, {f}]", fdup[f].iloc[1], envd[f])
+
         # time-course forms: 2 rows
         state2 = {v: ctx.real(f"s2_{v}") for v in names}
         T2 = ctx.real("T2")
@@ -161,7 +200,7 @@ class C01(Scenario):
 
 
 def scenarios(tier, seed):
-    scs = [C01(s) for s in M.shapes(tier)]
+    scs = [C01(s) for s in M.shapes(tier)] + [C01(s) for s in extra_shapes()]
     if tier != "quick":
         scs += [C01(s) for s in M.grammar_shapes()]
     return scs
